@@ -32,13 +32,20 @@ Both == {FALSE, TRUE}
 Pos == {FALSE}
 
 \* option records
-O(api, impl, fsty, xty, uname, ucv) == [api |-> api, impl |-> impl, fsty |-> fsty, xty |-> xty, uname |-> uname, ucv |-> ucv]
+O(api, impl, fsty, xty, uname, ucv) == [api |-> api, impl |-> impl, fsty |-> fsty, xty |-> xty, uname |-> uname, ucv |-> ucv, tbl |-> ""]
+OT(perm, xty, uname) == [O("table", TRUE, "g", xty, uname, NoConv) EXCEPT !.tbl = perm]
 Opts_num == { O("number", TRUE, "g", "float", "", NoConv), O("rxnstring", TRUE, "g", "float", "", NoConv),
               O("rxnstring", FALSE, "g", "float", "", NoConv), O("number", FALSE, "e", "float", "", NoConv),
               O("number", FALSE, "g", "int", "", NoConv), O("number", FALSE, "g", "npfloat", "", NoConv),
               O("number", TRUE, "g", "nparray", "", NoConv), O("number", FALSE, "g", "npint", "", NoConv),
               O("rxnstring", FALSE, "g", "npfloat", "", NoConv), O("rxnstring", TRUE, "g", "int", "", NoConv),
-              O("number", FALSE, "e", "npfloat", "", NoConv) }
+              O("number", FALSE, "e", "npfloat", "", NoConv),
+              \* reaction parameters that are quantities with an uncertainty
+              O("rxnstring", TRUE, "g", "uq", "1/M/s", NoConv), O("rxnstring", FALSE, "g", "uq", "m/s", NoConv),
+              O("number", TRUE, "g", "uq", "1/M/s", NoConv),
+              \* per-substance tables
+              OT("same", "float", ""), OT("reversed", "float", "M"), OT("rotated", "npfloat", ""), OT("extra", "float", "M"),
+              OT("list", "float", "") }
 Opts_unc == { O("number", FALSE, "g", "float", "km", ConvOf("m", "km")), O("number", FALSE, "g", "float", "s", ConvOf("hour", "s")),
               O("number", TRUE, "g", "float", "km", ConvOf("cm", "m")), O("number", FALSE, "g", "npfloat", "min", ConvOf("hour", "min")),
               O("number", FALSE, "g", "float", "kg", NoConv), O("number", FALSE, "g", "float", "percent", NoConv),
